@@ -1,4 +1,4 @@
 ----------------------------- MODULE MC_Literals -----------------------------
 EXTENDS Literals, Json
-Emit == phase = "judged" => PrintT(<<"REPLAY", ToJson([target |-> Target, lit |-> lit, verdict |-> Decide(lit)])>>)
+Emit == phase = "judged" => PrintT(<<"REPLAY", ToJson([target |-> Target, lit |-> lit, verdict |-> Decide(lit), trigger_ok |-> TriggerOk(lit)])>>)
 =============================================================================
